@@ -152,6 +152,10 @@ def _judge(ctx: Context, tree: str, N: Names, entry: FuncInfo, level: str, s: Sr
     if s.cls in (CANCELLED, "GeneratorExit"):
         return
     okey = f"{tree}|{s.origin}|{s.cls}"
+    # an exception that was parked in a field and is re-raised to ANOTHER caller later (`raise self._read_exception`) is a different way out than the direct one
+    via = [m_.group(1) for c in s.chain for m_ in [re.search(r": raise (self\.\w+)\s*$", c)] if m_]
+    if via:
+        okey += f"|via:{via[0]}"
     witness = {"entry": entry.short, "chain": list(s.chain), "tag": s.tag}
     loc_ = s.chain[0].split(" ", 1)[0] if s.chain else entry.where
     if s.tag == "config":
